@@ -110,6 +110,8 @@ func Load(opt LoadOptions) (*World, error) {
 			"golang.org/x/mod/sumdb/tlog",
 			"github.com/transparency-dev/formats/log",
 			"github.com/cenkalti/backoff/v4",
+			// pure-Go generic helpers of the standard library are executed as they are
+			"slices", "maps", "cmp",
 		},
 	}
 	for _, p := range prog.AllPackages() {
